@@ -261,7 +261,7 @@ def _worker(job):
         _G["pair_engine"] = H.new_engine(pair_mappings()["Base"].metadata)
     ops = PAIR_OPS if cascade is not None else (OPS1 if nobj == 1 else OPS2)
     res = dict(evaluations=0, steps=0, nontrivial=0, failures=[], samples=[], skipped_prefix_already_broken=0, transitions=set(), pair_evaluations=0,
-               pair_transitions=set(), cascaded_transitions=set())
+               pair_transitions=set(), cascaded_transitions=set(), pair_samples=[])
     for idxs in H.job_sequences(len(ops), job):
         names = [ops[k] for k in idxs]
         r = run_history(names, nobj, start=start, cascade=cascade)
@@ -276,14 +276,15 @@ def _worker(job):
                 res["cascaded_transitions"] |= {(cascade,) + t for t in r["cascaded"]}
         if cascade is not None:
             res["pair_evaluations"] += 1
+        skey = "samples" if cascade is None else "pair_samples"
         extra = {} if cascade is None else dict(pair_cascade=cascade)          # (key sorts after `ops`: known-finding patterns on the leading keys stay valid)
         if r["fail"]:
             if r["failed_at"] == len(names) - 1:
                 res["failures"].append(dict(r["fail"], ops=names, objects=nobj, start=start, last_op=names[-1], **extra))
             else:
                 res["skipped_prefix_already_broken"] += 1
-        elif len(r["transitions"]) >= 2 and len(names) == job["length"] and (not res["samples"] or (r["cascaded"] and not res["samples"][-1].get("pair_cascade"))):
-            res["samples"].append(dict(objects=nobj, start=start, ops=names, observed=[list(t[:-1]) + [list(t[-1])] for t in sorted(r["transitions"])], **extra))
+        elif len(r["transitions"]) >= 2 and len(names) == job["length"] and not res[skey] and (cascade is None or r["cascaded"]):
+            res[skey].append(dict(objects=nobj, start=start, ops=names, observed=[list(t[:-1]) + [list(t[-1])] for t in sorted(r["transitions"])], **extra))
     return res
 
 
@@ -326,8 +327,9 @@ def bounded(run, tier, seed):
     trans = agg.get("transitions", set())
     ptrans = agg.get("pair_transitions", set())
     ctrans = agg.get("cascaded_transitions", set())
-    samples = sorted(agg.get("samples", []), key=lambda x: -len(x["observed"]))
-    samples = [x for x in samples if "pair_cascade" not in x][:3] + [x for x in samples if "pair_cascade" in x][:3]
+    samples = sorted(agg.get("samples", []), key=lambda x: (-len(x["observed"]), x["ops"]))[:3]
+    psamples = sorted(agg.get("pair_samples", []), key=lambda x: (-len(x["observed"]), x["pair_cascade"], x["start"], x["ops"]))
+    samples += [next(x for x in psamples if x["pair_cascade"] == c) for c in CASCADES if any(x["pair_cascade"] == c for x in psamples)]
     blk = dict(
         scope=f"(a) objects of one mapped class, either constructed by the application (transient at the start) or loaded (persistent at the start), one Session on SQLite :memory: per history; for each start ALL histories of length in "
               f"{list(l1)} over {len(OPS1)} operations on one object {OPS1} and ALL histories of length in {list(l2)} over {len(OPS2)} operations on two objects; "
